@@ -265,6 +265,19 @@ def coq_state(c, e):
             f"{lib.coq_nat(e['ndata'])} {lib.coq_nat(e['nsteps'])})")
 
 
+def bound_field(c, horizon):
+    """Scale the polynomial field by one common power of two such that the solution provably stays in |u^(i)| <= R on the horizon
+    (initial coefficients are at most 2 in modulus): no finite-time blow-up, hence no adaptive solve that never terminates."""
+    R = Fr(4 if c["ord"] == 1 else 6)
+    S = max(sum(abs(Fr(cf)) * R ** sum(ex) for cf, ex in p) for p in c["f"])
+    fac = min(Fr(1), Fr(2) / (Fr(horizon) * S)) if S > 0 else Fr(1)
+    e = 0
+    while Fr(1, 2 ** e) > fac:
+        e += 1
+    c["f"] = [[[Fr(cf) / 2 ** e, ex] for cf, ex in p] for p in c["f"]]
+    return c
+
+
 def all_finite(o):
     if isinstance(o, dict):
         return all(all_finite(v) for v in o.values())
